@@ -186,6 +186,28 @@ func undecidedf(n ast.Node, format string, a ...any) error {
 }
 
 func isUint8(t types.Type) bool {
+	if tp, ok := t.(*types.TypeParam); ok {
+		// T ~uint8: every type of the constraint's type set has underlying type uint8
+		iface, ok := tp.Constraint().Underlying().(*types.Interface)
+		if !ok || iface.NumEmbeddeds() == 0 {
+			return false
+		}
+		for i := 0; i < iface.NumEmbeddeds(); i++ {
+			u, ok := iface.EmbeddedType(i).(*types.Union)
+			if !ok {
+				if !isUint8(iface.EmbeddedType(i)) {
+					return false
+				}
+				continue
+			}
+			for j := 0; j < u.Len(); j++ {
+				if !isUint8(u.Term(j).Type()) {
+					return false
+				}
+			}
+		}
+		return true
+	}
 	b, ok := t.Underlying().(*types.Basic)
 	return ok && b.Kind() == types.Uint8
 }
